@@ -79,9 +79,14 @@ def _replay_group(args):
         out["mism"].append({"clause": "build", "T": T, "actual": ["exc", type(e).__name__, str(e)[:200]]})
         return out
     has_any = '"any"' in _json.dumps(T)
+    _mark, _prev_call = 0, []
     try:
         for rec in recs:
             out["n"] += 1
+            for m_ in out["mism"][_mark:]:
+                m_.setdefault("call", _prev_call)       # every mismatch record carries the call options of its vector
+            _mark = len(out["mism"])
+            _prev_call = rec[5] if len(rec) > 5 and isinstance(rec[5], list) else []
             if rec[0] == "vec":
                 _, _T, v, wire_exp, back_exp = rec[:5]
                 kw = {}
@@ -205,6 +210,8 @@ def _replay_group(args):
                             out["mism"].append({"clause": "shared-factory", "T": T, "input": j, "expected": "fresh factory result per instance",
                                                 "actual": ["shared", names[i - 1]]})
     finally:
+        for m_ in out["mism"][_mark:]:
+            m_.setdefault("call", _prev_call)
         subj.close()
     return out
 
